@@ -24,6 +24,7 @@ type Config struct {
 	withConcurrency       bool
 	listenersAllowed      bool
 	initialized           bool
+	initErr               error
 	filename              string
 	vm                    *vm.VirtualMachine
 }
@@ -83,15 +84,13 @@ func (cfg *Config) GlobalNames() []string {
 
 func (cfg *Config) init() error {
 	if cfg.initialized {
-		return nil
+		return cfg.initErr
 	}
 	cfg.initialized = true
 	cfg.applyDefaultGlobals()
 	cfg.applyDenylist()
-	if err := cfg.applyOverrides(); err != nil {
-		return err
-	}
-	return nil
+	cfg.initErr = cfg.applyOverrides()
+	return cfg.initErr
 }
 
 func (cfg *Config) applyDefaultGlobals() {
@@ -131,6 +130,7 @@ func (cfg *Config) applyOverrides() error {
 		names = append(names, name)
 	}
 	sort.Strings(names)
+	var firstErr error
 	for _, name := range names {
 		value := cfg.overrides[name]
 		parts := strings.Split(name, ".")
@@ -140,7 +140,12 @@ func (cfg *Config) applyOverrides() error {
 		}
 		valueObj := object.FromGoType(value)
 		if valueObj == nil || valueObj.Type() == object.ERROR {
-			return fmt.Errorf("init error: invalid value for global override: %v", value)
+			// Keep going: one unusable value must not leave the overrides
+			// that sort after it unapplied. The first error is reported.
+			if firstErr == nil {
+				firstErr = fmt.Errorf("init error: invalid value for global override %q: %v", name, value)
+			}
+			continue
 		}
 		moduleName := parts[0]
 		nestedModulePath := parts[1 : len(parts)-1]
@@ -153,7 +158,7 @@ func (cfg *Config) applyOverrides() error {
 			}
 		}
 	}
-	return nil
+	return firstErr
 }
 
 // CompilerOpts returns compiler options derived from this configuration.
